@@ -119,6 +119,8 @@ GATED = [
     "try:\n    pass\nexcept A:\n    pass\n", "type = 1\n", "type(x)\n", "print(type)\n", "x = type[int]\n", "match = 1\n", "def f(a, /, b): pass\n", "x = (y := 1)\n", "with (a as b, c as d): pass\n",
     "try:\n    pass\nexcept *A:\n    pass\n" if False else "lambda: (yield)\n",
 ]
+# refused after the parse for another reason than the version (a name that is no identifier): the same refusal at every version
+GATED += ["type X = \u00b2\n", "try: \u00b2\nexcept* E: pass\n", "def f[T](): a\u00b2\n", "class A[T\u00b2]: pass\n", "type \u0661 = int\n", "try:\n    pass\nexcept* E as e\u00b9:\n    pass\n"]
 GATED = [g for g in GATED if g]
 
 
